@@ -335,7 +335,28 @@ func (w *hsWorld) stray(sub uint64) {
 	if f&codec.FlagACK == 0 && r.Chance(0.5) {
 		ack = 0
 	}
-	p.Send(f, seq, ack, 1024, nil, data)
+	// half of the strays carry (well-formed) options: they occupy no sequence space
+	var sopts []byte
+	if r.Chance(0.5) {
+		if f&codec.FlagSYN != 0 {
+			if o, valid, _ := synOptions(r); valid {
+				sopts = o
+			}
+		} else {
+			switch r.Intn(3) {
+			case 0:
+				sopts = codec.PadOpts(codec.OptTS(uint32(r.Uint64()), uint32(r.Uint64())))
+			case 1:
+				sopts = []byte{1, 1, 1, 1}
+			case 2:
+				sopts = codec.PadOpts(append(codec.OptTS(1, 2), codec.OptSACK([][2]uint32{{10, 20}})...))
+			}
+		}
+		if len(sopts) > 0 {
+			w.Probes["stray_with_options"]++
+		}
+	}
+	p.Send(f, seq, ack, 1024, sopts, data)
 	replies := p.Mine(w.Take())
 	if f&codec.FlagRST != 0 {
 		w.Probes["stray_reset"]++
